@@ -75,6 +75,10 @@ def _progs():
     P["index_offset"] = lambda X, Y, V, W: X[5:-7, 3:]
     P["index_array"] = lambda X, Y, V, W: X[list(range(1, X.shape[0], 5)), :]
     P["repeat"] = lambda X, Y, V, W: xp.repeat(X, 2, axis=0)
+    P["repeat_6"] = lambda X, Y, V, W: xp.repeat(X, 6, axis=0)
+    P["repeat_8_ax1"] = lambda X, Y, V, W: xp.repeat(X, 8, axis=1)
+    P["cumsum_ax1"] = lambda X, Y, V, W: xp.cumulative_sum(X, axis=1)
+    P["tile"] = lambda X, Y, V, W: xp.tile(X, (2, 3))
     P["broadcast_to"] = lambda X, Y, V, W: xp.broadcast_to(X, (2,) + X.shape)
     P["outer"] = lambda X, Y, V, W: xp.linalg.outer(V, W)
     P["diff"] = lambda X, Y, V, W: xp.diff(X, axis=0)
@@ -94,7 +98,8 @@ def _progs():
 PROG_NAMES = ["negative", "add", "chain", "greater", "astype_small", "where", "sum_axis0", "sum_all", "max_axis1", "mean_axis1",
               "var_axis0", "argmax_axis0", "nanmean", "cumsum", "matmul", "tensordot", "transpose", "rechunk", "rechunk_t", "concat0",
               "concat1", "stack", "pad", "roll", "flip", "index_step", "index_offset", "index_array", "repeat", "broadcast_to", "outer",
-              "diff", "reshape", "tril", "expand_squeeze", "isin", "map_blocks", "sum_of_product", "vecdot", "sum_negative", "max_abs", "mean_square"]
+              "diff", "reshape", "tril", "expand_squeeze", "isin", "map_blocks", "sum_of_product", "vecdot", "sum_negative", "max_abs", "mean_square",
+              "repeat_6", "repeat_8_ax1", "cumsum_ax1", "tile"]
 
 
 def draw_case(rng, tier, idx):
